@@ -58,11 +58,13 @@ func (f *Oneplus) Call(s *slip.Scope, args slip.List, depth int) (result slip.Ob
 		var z big.Int
 		return (*slip.Bignum)(z.Add((*big.Int)(ta), big.NewInt(1)))
 	case *slip.Ratio:
-		var z big.Int
+		var (
+			z  big.Int
+			zr big.Rat
+		)
 		den := (*big.Rat)(ta).Denom()
 		num := z.Add((*big.Rat)(ta).Num(), den)
-		(*big.Rat)(ta).SetFrac(num, den)
-		return ta
+		return (*slip.Ratio)(zr.SetFrac(num, den))
 	case slip.Complex:
 		result = slip.Complex(complex(real(ta)+1.0, imag(ta)))
 	default:
